@@ -130,8 +130,24 @@ def r17_3(chk):
     b = _bounds(rets[0].value, d) if rets else set()
     ok = b == {("lower", "self.start", False), ("upper", "self.stop", True)}
     chk.inst("R17.3", f"{f.ref}::half-open", ok, "thrust on [start, stop)" if ok else f"bounds {sorted(b)}", loc(f, f.node))
-    # the integrator uses them with the stage date / accepted step (C06 R06.2/R06.3)
-    chk.floor("R17.3", 2)
+    # the integrator tests the impulse window on the step it actually took, and the burn window at the stage date
+    KN = "beyond/propagators/keplernum.py"
+    ms = chk.repo.func(KN, "KeplerNum._make_step")
+    rets = [s for s in body_without_doc(ms.node) if isinstance(s, ast.Return)]
+    taken = unparse(rets[0].value.elts[0]) if rets and isinstance(rets[0].value, ast.Tuple) else None
+    calls = [n for n in ast.walk(ms.node) if isinstance(n, ast.Call) and unparse(n.func) == "man.check"]
+    ok = taken is not None and len(calls) == 1 and len(calls[0].args) == 2 and unparse(calls[0].args[0]) == f"{ms.params()[1]}.date" and unparse(calls[0].args[1]) == taken
+    chk.inst("R17.3", f"{ms.ref}::impulse-window-uses-accepted-step", ok, f"window (t_n, t_n + {taken}] with the step that is returned: consecutive windows tile time" if ok else
+             f"the impulse window is tested with `{unparse(calls[0].args[1]) if calls and len(calls[0].args) > 1 else '?'}` while the step actually taken (returned) is `{taken}`: "
+             f"with an adaptive method windows overlap (impulse applied twice / early) or leave gaps", loc(ms, calls[0]) if calls else loc(ms, ms.node))
+    ac = chk.repo.func(KN, "KeplerNum._accel")
+    calls = [n for n in ast.walk(ac.node) if isinstance(n, ast.Call) and unparse(n.func) == "man.check"]
+    ok = len(calls) == 1 and [unparse(a) for a in calls[0].args] == [f"{ac.params()[1]}.date"]
+    chk.inst("R17.3", f"{ac.ref}::burn-window-at-stage-date", ok, "thrust switched by the date of the stage being evaluated" if ok else "changed", loc(ac, ac.node))
+    dvs = [n for n in ast.walk(ms.node) if isinstance(n, ast.AugAssign) and "man.dv(" in unparse(n.value)]
+    ok = len(dvs) == 1 and unparse(dvs[0].target) == "y_n_1[3:]" and isinstance(dvs[0].op, ast.Add)
+    chk.inst("R17.3", f"{ms.ref}::impulse-on-velocity", ok, "the delta-v is added once to the velocity of the new state" if ok else "changed", loc(ms, ms.node))
+    chk.floor("R17.3", 5)
 
 
 def r17_4(chk):
